@@ -30,6 +30,27 @@ from geckolib.driver import GeckoConfigFileProtocolHandler, GeckoStructure  # no
 PINS = os.path.join(core.VERIF, "pins")
 
 
+_WRITABLE = {}
+
+
+def _effective_writable(a, dd):
+    """Does the item actually accept a write (behaviour, not the declared tag)?  Structural refusal only: a value error of
+    the probe itself does not count."""
+    if dd["pos"] + a.length > 1024:
+        return dd["rw"] is not None
+    typ = dd["type"]
+    v = {"Bool": True, "Byte": 1, "Word": 1, "Time": "01:01"}.get(typ)
+    if typ == "Enum":
+        v = dd["items"][0]
+    if dd["cls"] == "GeckoTempStructAccessor":
+        return dd["rw"] is not None  # needs the unit item of another table; covered by C02
+    try:
+        a.value = v
+        return True
+    except Exception:  # noqa
+        return False
+
+
 def dump_module(name):
     """Canonical description of one module (used for the pin and for the comparison)."""
     st = GeckoStructure(lambda *a: None)
@@ -51,6 +72,7 @@ def dump_module(name):
                 dd = a._decl
                 items[tag] = [dd["cls"], dd["type"], dd["pos"], dd["bitpos"], dd["items"], dd["size"], dd["maxitems"], dd["rw"],
                               a.length, getattr(a, "bitmask", None) if dd["bitpos"] is not None else None, a.tag]
+                _WRITABLE[(name, kind, tag)] = _effective_writable(a, dd)
             d["items"] = items
             out[kind] = d
     return out
@@ -109,6 +131,10 @@ def _check_module(name):
                     bad.append((f"bits-outside-bytes|{tag}", f"{name}:{tag} bit field mask {f.mask:#x} at bit {bitpos} exceeds its {f.width} byte(s)"))
                 if mask != f.mask:
                     bad.append((f"mask|{tag}", f"{name}:{tag} effective mask {mask!r}, declaration (MaxItems {maxitems}) implies {f.mask}"))
+            ew = _WRITABLE.get((name, kind, tag))
+            if ew is not None and ew != (rw is not None):
+                bad.append((f"writability|{tag}", f"{name}:{tag} is declared {'writable (' + str(rw) + ')' if rw is not None else 'read-only'} "
+                                                  f"but {'accepts' if ew else 'refuses'} a write"))
             if typ == "Enum":
                 # every label must be representable; trailing labels may be padding ("")
                 last = max((i for i, lab in enumerate(labels) if lab != ""), default=0)
@@ -122,6 +148,84 @@ def _cross(platform_dumps):
     the platform (outputs are config items, demands/devices/errors are log items)."""
     bad = []
     return bad
+
+
+class _Snap:
+    """What the simulator needs from a snapshot, for any platform/cfg/log combination."""
+
+    def __init__(self, packname, cfg, log):
+        self.packtype = packname
+        self.config_version = cfg
+        self.log_version = log
+        self.intouch_EN = (88, 15, 0)
+        self.intouch_CO = (89, 11, 0)
+        self.bytes = bytes(1024)
+
+
+def _lookup_job(job):
+    """The real clients resolve the tables from the FILES reply of the (real) simulator: async _connect on the virtual
+    loop up to the point where the tables are loaded, and the blocking client's _on_config_received."""
+    plat, pairs = job
+    import asyncio
+
+    from ..peers import SPA_ADDR, SPA_ID, SimPeer
+    from ..vloop import Chooser, VLoop
+    from ..vnet import VNet
+    from geckolib import AsyncTasks, GeckoAsyncSpa, GeckoAsyncSpaDescriptor
+    from geckolib.spa import GeckoSpa
+    from ..stepped import TDesc
+
+    packname = lib.pack_module(plat).GeckoPack(None).name
+    bad = []
+    n = 0
+    for cfg, log in pairs:
+        n += 1
+        lib.reset_library()
+        loop = VLoop(Chooser())
+        loop.timer_choices_enabled = False
+        net = VNet(loop)
+        peer = SimPeer(_Snap(packname, cfg, log))
+        net.add_peer(SPA_ADDR, peer)
+        events = []
+
+        async def on_event(event, **kw):
+            events.append((event.name, kw))
+
+        with loop.running():
+            tm = AsyncTasks()
+            spa = GeckoAsyncSpa(b"IOSgeckomc", GeckoAsyncSpaDescriptor(SPA_ID, "Spa", SPA_ADDR), tm, on_event)
+            t = loop.create_task(spa.connect(), name="HARNESS:connect")
+        loop.run_for(30.0, lambda: t.done() or spa.log_class is not None or any(e[0].startswith("CONNECTION_CANNOT") for e in events))
+        got = (getattr(spa.pack_class, "name", None), getattr(spa.config_class, "version", None), getattr(spa.log_class, "version", None))
+        mods = (type(spa.config_class).__module__, type(spa.log_class).__module__)
+        exp_mods = (f"geckolib.driver.packs.{plat}-cfg-{cfg}", f"geckolib.driver.packs.{plat}-log-{log}")
+        if got != (packname, cfg, log) or mods != exp_mods:
+            bad.append(("lookup|async", f"async client: spa reports {packname} C{cfg:02}/S{log:02}; client loaded {got} from {mods} "
+                                        f"(events {[e[0] for e in events if 'CANNOT' in e[0]]})"))
+        with loop.running():
+            for x in tm._tasks:
+                x.cancel()
+            t.cancel()
+        loop.shutdown()
+        # blocking client: the same decision in _on_config_received
+        from geckolib.driver import GeckoConfigFileProtocolHandler
+
+        h = GeckoConfigFileProtocolHandler()
+        h.handle(GeckoConfigFileProtocolHandler.response(packname, cfg, log, parms=(1, 2, b"a", b"b"))._content, None)
+        tspa = GeckoSpa(TDesc(SPA_ID, b"IOSgeckomc", SPA_ADDR))
+        tspa.queue_send = lambda *a, **k: None
+        tspa.add_receive_handler = lambda *a, **k: None
+        try:
+            tspa._on_config_received(h, (SPA_ADDR[0], SPA_ADDR[1], SPA_ID, b"IOSgeckomc"))
+            tgot = (tspa.new_pack_class.name, tspa.new_config_class.version, tspa.new_log_class.version,
+                    type(tspa.new_config_class).__module__, type(tspa.new_log_class).__module__)
+        except Exception as e:  # noqa
+            tgot = repr(e)
+        if tgot != (packname, cfg, log) + exp_mods:
+            bad.append(("lookup|threaded", f"blocking client: spa reports {packname} C{cfg:02}/S{log:02}; client loaded {tgot}"))
+        if bad:
+            break
+    return plat, n, bad
 
 
 def load_pin():
@@ -222,6 +326,23 @@ def run(ctx):
             if k not in sib_items:
                 ctx.violation(f"C18|dangling-key|{name}", f"{name}: {key_list} advertises {k!r}, which no table of platform {plat} defines",
                               {"module": name})
+    # the clients' own table lookup from the FILES reply: every platform x cfg x log (quick: every cfg with the first/last log and
+    # every log with the first/last cfg - the lookup code treats the two numbers independently)
+    ljobs = []
+    for plat, v in plats.items():
+        if not v["cfg"] or not v["log"]:
+            continue
+        pairs = [(c, l) for c in v["cfg"] for l in v["log"]]
+        if ctx.quick:
+            pairs = sorted({(c, l) for c in v["cfg"] for l in (v["log"][0], v["log"][-1])} | {(c, l) for l in v["log"] for c in (v["cfg"][0], v["cfg"][-1])})
+        ljobs.append((plat, pairs))
+    nl = 0
+    for plat, n, bad in core.pmap(ctx, _lookup_job, ljobs, chunksize=1):
+        nl += n
+        for cls, text in bad:
+            ctx.violation(f"C18|{cls}|{plat}", text, {"module": plat, "mode": "lookup"})
+    evals += nl
+    ctx.set("client_lookups", nl)
     ctx.set("modules", len(names))
     ctx.set("items", nitems)
     ctx.set("pin", pinfile)
@@ -239,6 +360,16 @@ def run(ctx):
 
 
 def replay(ctx, data):
+    if data.get("mode") == "lookup":
+        plat = data["module"]
+        v = lib.platforms()[plat]
+        p_, n, bad = _lookup_job((plat, [(c, l) for c in v["cfg"] for l in v["log"]]))
+        for cls, text in bad:
+            ctx.violation(f"C18|{cls}|{plat}", text, data)
+        ctx.set("evaluations", 1)
+        ctx.set("distinct_nontrivial", 2)
+        ctx.set("rule", "replay")
+        return
     pin, pinfile = load_pin()
     name, n, bad, d = _check_module(data["module"])
     for cls, text in bad:
